@@ -49,6 +49,7 @@ type World struct {
 	strLits  map[string]bool
 
 	protectedFields map[string]bool
+	globalTypes     map[string]types.Type
 	immutableFields map[string]bool // protected fields that are only written during construction
 	allFuncs        map[string]*ssa.Function
 	opqSig          map[string]string
@@ -499,6 +500,10 @@ func (w *World) globalKey(g *ssa.Global) (string, string) {
 	es := w.sortOf(elem)
 	key := "G:" + shortPkg(g.Pkg.Pkg.Path()) + "." + g.Name()
 	w.heapSort[key] = es
+	if w.globalTypes == nil {
+		w.globalTypes = map[string]types.Type{}
+	}
+	w.globalTypes[key] = elem
 	return key, es
 }
 
